@@ -242,6 +242,12 @@ def _datetime(field, fmt, cell):
 # ---------------------------------------------------------------------------------------------
 # Pattern (glob) - own matcher
 # ---------------------------------------------------------------------------------------------
+# characters whose upper / lower case form is not one character, or that 're' pairs with an ASCII letter when it
+# ignores case: what "ignoring case" means for them against a literal or a character class is left open, but each of
+# them is ONE character for '?' and any run of them is matched by '*'
+EXOTIC_CASE_CHARS = "\u0130\u0131\u017f\u00df\u00b5\u03c2\u03a3\u212a\u01c5"
+
+
 def _fold_eq(a, b):
     return a == b or a.lower() == b.lower() or a.upper() == b.upper()
 
@@ -256,8 +262,11 @@ def _class_matches(cls, ch):
     return hit != cls["neg"]
 
 
-def glob_match(tokens, text):
-    """tokens: list of {"t": "lit", "c": ch} | {"t": "any"} | {"t": "star"} | {"t": "class", ...}; full match."""
+def glob_match(tokens, text, exotic=None):
+    """tokens: list of {"t": "lit", "c": ch} | {"t": "any"} | {"t": "star"} | {"t": "class", ...}; full match.
+
+    ``exotic``: None, or the answer (True / False) to assume whenever one of EXOTIC_CASE_CHARS in the text meets a
+    literal or a character class."""
     memo = {}
 
     def rec(ti, pos):
@@ -275,6 +284,8 @@ def glob_match(tokens, text):
                 result = False
             elif kind == "any":
                 result = rec(ti + 1, pos + 1)
+            elif exotic is not None and text[pos] in EXOTIC_CASE_CHARS:
+                result = exotic and rec(ti + 1, pos + 1)
             elif kind == "lit":
                 result = _fold_eq(tok["c"], text[pos]) and rec(ti + 1, pos + 1)
             else:
@@ -288,7 +299,13 @@ def glob_match(tokens, text):
 def _pattern(field, fmt, cell):
     if "\n" in cell or "\r" in cell:
         return ("neutral", "line break in value")
-    if glob_match(field["model"]["tokens"], cell):
+    tokens = field["model"]["tokens"]
+    if any(ch in EXOTIC_CASE_CHARS for ch in cell):
+        optimistic, pessimistic = glob_match(tokens, cell, True), glob_match(tokens, cell, False)
+        if optimistic != pessimistic:
+            return ("neutral", "character with a special case mapping against a literal or a class")
+        return ("accept", cell) if optimistic else ("reject", "glob does not match")
+    if glob_match(tokens, cell):
         return ("accept", cell)
     return ("reject", "glob does not match")
 
